@@ -11,6 +11,12 @@ pub fn dispatch(op: &str, case: &Value) -> Value {
         "http_error" => op_http_error(case),
         "status_code" => op_status_code(case),
         "status_scan" => op_status_scan(case),
+        "page_token" => op_page_token(case),
+        "token_in" => op_token_in(case),
+        "whichpage" => op_whichpage(case),
+        "results_page" => op_results_page(case),
+        "page_limit" => op_page_limit(case),
+        "page_limit_bad" => op_page_limit_bad(case),
         _ => json!({"error": format!("unknown op {}", op)}),
     }
 }
@@ -303,4 +309,206 @@ fn op_status_scan(_case: &Value) -> Value {
         }
     }
     json!({"mismatches": bad})
+}
+
+// ---------------------------------------------------------------------------------- C14 / C15
+use dropshot::EmptyScanParams;
+use dropshot::PaginationParams;
+use dropshot::Query;
+use dropshot::ResultsPage;
+use dropshot::WhichPage;
+use serde::Serialize;
+
+#[derive(Debug, Clone, PartialEq, Deserialize, Serialize, JsonSchema)]
+struct Sel {
+    s: String,
+}
+#[derive(Debug, Clone, PartialEq, Deserialize, Serialize, JsonSchema)]
+struct Scan {
+    #[serde(default)]
+    sort_by: Option<String>,
+}
+
+fn b64() -> base64::engine::GeneralPurpose {
+    base64::engine::general_purpose::URL_SAFE
+}
+
+fn token_json_len(token: &str) -> Option<usize> {
+    use base64::Engine;
+    b64().decode(token.as_bytes()).ok().map(|b| b.len())
+}
+
+fn issue(s: &str) -> Result<Option<String>, HttpError> {
+    let page = ResultsPage::new(vec![s.to_string()], &(), |item: &String, _: &()| Sel { s: item.clone() })?;
+    Ok(page.next_page)
+}
+
+fn parse_back(token: &str) -> Result<Sel, String> {
+    let q = serde_urlencoded::to_string(&[("page_token", token)]).unwrap();
+    match serde_urlencoded::from_str::<PaginationParams<Scan, Sel>>(&q) {
+        Ok(p) => match p.page {
+            WhichPage::Next(sel) => Ok(sel),
+            WhichPage::First(_) => Err("parsed as first page".to_string()),
+        },
+        Err(e) => Err(e.to_string()),
+    }
+}
+
+fn base_json_len() -> usize {
+    token_json_len(&issue("").unwrap().unwrap()).unwrap()
+}
+
+/// {"op":"page_token","json_len":n} : issue tokens for a family of selectors whose token JSON has n bytes, feed each back
+fn op_page_token(case: &Value) -> Value {
+    let n = case["json_len"].as_u64().unwrap() as usize;
+    let base = base_json_len();
+    let l = n.saturating_sub(base);
+    let mut family = vec!["a".repeat(l)];
+    for (i, ch) in [(0usize, '>'), (1, '?'), (2, '~'), (l / 2, '>'), (l.saturating_sub(1), '?'), (l.saturating_sub(2), '~')] {
+        if i < l {
+            let mut v: Vec<char> = "a".repeat(l).chars().collect();
+            v[i] = ch;
+            family.push(v.into_iter().collect());
+        }
+    }
+    for k in 0..3usize {
+        if l >= 3 {
+            let mut v: Vec<char> = "a".repeat(l).chars().collect();
+            for j in (k..l).step_by(3) { v[j] = ['>', '?', '~'][j % 3]; }
+            family.push(v.into_iter().collect());
+        }
+    }
+    let (mut issued, mut roundtrip_all, mut token_len, mut issue_status, mut failing) = (true, true, 0usize, 0u16, Value::Null);
+    for s in &family {
+        match issue(s) {
+            Ok(Some(t)) => {
+                token_len = token_len.max(t.len());
+                match parse_back(&t) {
+                    Ok(sel) if sel.s == *s => {}
+                    other => {
+                        roundtrip_all = false;
+                        failing = json!({"selector": s, "token": t, "back": format!("{:?}", other)});
+                    }
+                }
+            }
+            Ok(None) => { issued = false; }
+            Err(e) => { issued = false; issue_status = e.status_code.as_u16(); }
+        }
+    }
+    json!({"issued": issued, "roundtrip_all": roundtrip_all, "token_len": token_len, "issue_status": issue_status,
+           "family": family.len(), "selector_len": l, "failing": failing})
+}
+
+#[endpoint { method = GET, path = "/items" }]
+async fn paged_items(
+    rqctx: RequestContext<()>,
+    query: Query<PaginationParams<Scan, Sel>>,
+) -> Result<HttpResponseOk<serde_json::Value>, HttpError> {
+    let p = query.into_inner();
+    let limit = rqctx.page_limit(&p)?.get();
+    let which = match &p.page {
+        WhichPage::First(scan) => json!({"first": {"sort_by": scan.sort_by}}),
+        WhichPage::Next(sel) => json!({"next": {"s": sel.s}}),
+    };
+    Ok(HttpResponseOk(json!({"limit": limit, "which": which})))
+}
+
+fn get_items(query: &str) -> Option<crate::live::RawResponse> {
+    let mut api = ApiDescription::new();
+    api.register(paged_items).unwrap();
+    let rq = format!("GET /items{} HTTP/1.1\r\nHost: replay\r\nConnection: close\r\n\r\n", query).into_bytes();
+    crate::live::serve_raw(api, 1024, vec![vec![rq]]).into_iter().next().flatten()
+}
+
+fn build_token(len: usize, decodes: bool, parses: bool) -> Result<String, String> {
+    use base64::Engine;
+    if !decodes {
+        return Ok("!".repeat(len));
+    }
+    if len % 4 != 0 {
+        return Err(format!("no padded base64 text has length {}", len));
+    }
+    let n_max = len / 4 * 3;
+    if !parses {
+        for n in (n_max.saturating_sub(2)..=n_max).rev() {
+            let t = b64().encode("{".repeat(n.max(1)));
+            if t.len() == len { return Ok(t); }
+        }
+        return Err("cannot build".to_string());
+    }
+    let base = base_json_len();
+    for n in (n_max.saturating_sub(2)..=n_max).rev() {
+        if n < base { continue; }
+        let js = serde_json::to_vec(&json!({"v": "v1", "page_start": {"s": "a".repeat(n - base)}})).unwrap();
+        let t = b64().encode(&js);
+        if t.len() == len { return Ok(t); }
+    }
+    Err(format!("no valid token has length {}", len))
+}
+
+/// {"op":"token_in","len":n,"decodes":b,"parses":b} -> {"status": n}
+fn op_token_in(case: &Value) -> Value {
+    let t = match build_token(case["len"].as_u64().unwrap() as usize, case["decodes"].as_bool().unwrap(), case["parses"].as_bool().unwrap()) {
+        Ok(t) => t,
+        Err(e) => return json!({"unbuildable": e}),
+    };
+    let q = format!("?{}", serde_urlencoded::to_string(&[("page_token", t.as_str())]).unwrap());
+    match get_items(&q) {
+        None => json!({"status": 0}),
+        Some(r) => json!({"status": r.status, "body": String::from_utf8_lossy(&r.body)}),
+    }
+}
+
+/// {"op":"whichpage","shape":"token"|"token+other"|"other"|"empty","len":n}
+fn op_whichpage(case: &Value) -> Value {
+    let shape = case["shape"].as_str().unwrap();
+    let token = issue("sel-value").unwrap().unwrap();
+    let mut parts: Vec<(&str, &str)> = vec![];
+    if shape.contains("other") { parts.push(("sort_by", "name-descending")); }
+    if shape.contains("token") { parts.push(("page_token", token.as_str())); }
+    let q = if parts.is_empty() { String::new() } else { format!("?{}", serde_urlencoded::to_string(&parts).unwrap()) };
+    let Some(r) = get_items(&q) else { return json!({"as_specified": false, "status": 0}) };
+    let body: Value = serde_json::from_slice(&r.body).unwrap_or(Value::Null);
+    let ok = if shape.contains("token") {
+        r.status == 200 && body["which"]["next"]["s"] == "sel-value"
+    } else if shape == "other" {
+        r.status == 200 && body["which"]["first"]["sort_by"] == "name-descending"
+    } else {
+        r.status == 200 && body["which"]["first"]["sort_by"].is_null() && !body["which"]["first"].is_null()
+    };
+    json!({"as_specified": ok, "status": r.status, "body": body})
+}
+
+/// {"op":"results_page","items":k,"json_len":n}
+fn op_results_page(case: &Value) -> Value {
+    let k = case["items"].as_u64().unwrap() as usize;
+    let n = case["json_len"].as_u64().unwrap() as usize;
+    let l = n.saturating_sub(base_json_len());
+    let items: Vec<String> = (0..k).map(|i| format!("{}{}", i, "a".repeat(l.saturating_sub(1)))).collect();
+    let fits = 4 * ((base_json_len() + items.last().map(|s| s.len()).unwrap_or(0) + 2) / 3) <= 512;
+    match ResultsPage::new(items.clone(), &(), |item: &String, _: &()| Sel { s: item.clone() }) {
+        Err(e) => json!({"as_specified": k > 0 && !fits && e.status_code.as_u16() >= 500, "error": e.status_code.as_u16()}),
+        Ok(page) => {
+            let ok = match (&page.next_page, items.last()) {
+                (None, None) => true,
+                (Some(t), Some(last)) => fits && parse_back(t).map(|s| s.s == *last).unwrap_or(false),
+                _ => false,
+            };
+            json!({"as_specified": ok && page.items == items, "next_page": page.next_page})
+        }
+    }
+}
+
+/// {"op":"page_limit","limit":n|null} -> {"items": effective limit}  (server max / default are the built-in constants)
+fn op_page_limit(case: &Value) -> Value {
+    let q = match case["limit"].as_u64() { Some(l) => format!("?limit={}", l), None => String::new() };
+    let Some(r) = get_items(&q) else { return json!({"status": 0}) };
+    let body: Value = serde_json::from_slice(&r.body).unwrap_or(Value::Null);
+    json!({"status": r.status, "items": body["limit"]})
+}
+
+fn op_page_limit_bad(case: &Value) -> Value {
+    let q = format!("?limit={}", case["text"].as_str().unwrap());
+    let Some(r) = get_items(&q) else { return json!({"status": 0}) };
+    json!({"status": r.status})
 }
